@@ -53,6 +53,55 @@ def runUntil {σ : Type} (h : Handler σ) (endT : Int) (w : World σ) : Except F
 def backup {σ : Type} (w : World σ) : World σ := w
 def restore {σ : Type} (w : World σ) : World σ := w
 
+/-! ### variable global step (per-simulant clocks) and the interactive stepping APIs -/
+
+/-- a simulation whose single step is an arbitrary deterministic function of the world: the global step
+may change from step to step (`step_forward` recomputes it from the simulants' next-event times).
+`getStep` / `setStep` are the clock's `_clock_step_size` as `InteractiveContext.step` reads and writes it. -/
+structure VSys (W : Type) where
+  step    : W → W
+  time    : W → Int
+  getStep : W → Int
+  setStep : Int → W → W
+
+namespace VSys
+variable {W : Type}
+
+def iter (S : VSys W) : Nat → W → W
+  | 0, w => w
+  | n+1, w => iter S n (S.step w)
+
+/-- `SimulationContext.run()`: `while time < stop: step()`; returns the number of steps and the final world -/
+def run (S : VSys W) (stop : Int) : Nat → W → Nat × W
+  | 0, w => (0, w)
+  | fuel+1, w =>
+    if S.time w < stop then let r := run S stop fuel (S.step w); (r.1 + 1, r.2) else (0, w)
+
+/-- `InteractiveContext.step(step_size)`: with an explicit size the clock's step is set before the engine
+step and the old one written back afterwards; without one nothing is touched (Gen.interactiveStepRestoresOnlyWhenGiven) -/
+def istep (S : VSys W) (arg : Option Int) (w : W) : W :=
+  match arg with
+  | none => S.step w
+  | some h => S.setStep (S.getStep w) (S.step (S.setStep h w))
+
+/-- `take_steps(n, step_size)`: `for _ in range(n): self.step(step_size)` with the argument passed through
+unchanged (Gen.takeStepsForwardsStepSize) -/
+def takeSteps (S : VSys W) (arg : Option Int) : Nat → W → W
+  | 0, w => w
+  | n+1, w => takeSteps S arg n (S.istep arg w)
+
+/-- `run_until(end)` as it is now: `while time < end: take_steps(1)`, counting (Gen.runUntilLoopCmp = "Lt") -/
+def runUntil (S : VSys W) (endT : Int) : Nat → W → Nat × W
+  | 0, w => (0, w)
+  | fuel+1, w =>
+    if S.time w < endT then let r := runUntil S endT fuel (S.takeSteps none 1 w); (r.1 + 1, r.2) else (0, w)
+
+/-- the earlier `run_until`: `take_steps(ceil((end - now) / current step))` -/
+def runUntilPrecomputed (S : VSys W) (endT : Int) (w : W) : W :=
+  S.takeSteps none (Viv.Ev.ceilDiv (endT - S.time w) (S.getStep w)).toNat w
+
+end VSys
+
 /-- a table as an association list of columns; `setCol` overwrites or appends -/
 def setCol {α : Type} (t : List (String × α)) (c : String) (v : α) : List (String × α) :=
   if t.any (·.1 == c) then t.map (fun p => if p.1 == c then (c, v) else p) else t ++ [(c, v)]
